@@ -237,10 +237,26 @@ CHECKS = {
                 'reached is counted, not failed.',
         'design_ref': 'DESIGN.md 4.4',
     },
+    'C08': {
+        'technique': TECH + 'history on an external stateful store (SQLite '
+                     'through tdda\'s own connection with its REGEXP '
+                     'callback): rows written before discovery (must be '
+                     'absorbed) -> discover -> rogue single-row write '
+                     'breaking exactly one discovered constraint -> verify',
+        'text': 'Seeded exploration over tables (integer/real/text/varchar/'
+                'boolean/datetime; quotes, backslashes, %, unicode, empty '
+                'strings, all-null columns, empty tables) and over the '
+                'position and kind of the rogue write in the history. '
+                'Unchanged table: no error, 0 failures. After the rogue row: '
+                'the targeted constraint must be reported failed.',
+        'note': 'SQLite only; table names plain identifiers; column names '
+                'without double quotes; other verdicts after a rogue write '
+                'are not constrained.',
+        'design_ref': 'DESIGN.md 4.5',
+    },
 }
 
-NOT_BUILT = {p: 'claimed in DESIGN.md; machine under construction, no check registered yet'
-             for p in ('C08',)}
+NOT_BUILT = {}
 
 NOT_APPLICABLE = {
     'C02': 'pure function of (frame, constraint set, epsilon, type_checking): '
